@@ -4,6 +4,7 @@ C15 (A) — object-lifetime logic of `Avoid::Router`: property theorems over the
 `Lemmas/Lifecycle*.lean`).
 -/
 import AdaptaVerif.Lemmas.LifecycleFault
+import AdaptaVerif.Lemmas.LifecycleCheckpoints
 namespace AdaptaVerif.Props.C15
 open AdaptaVerif.Model.Lifecycle AdaptaVerif.Spec.Lifecycle AdaptaVerif.Lemmas.Lifecycle
 
@@ -200,5 +201,56 @@ example : LegalHist [.newShape 1, .newPin 2 1 1, .newJunction 4 5, .newJunction 
     (run [.newShape 1, .newPin 2 1 1, .newJunction 4 5, .newJunction 8 9, .processTransaction,
       .newConn 3 (some ⟨1, 1⟩) (some ⟨4, 0⟩) true, .moveShape 1, .deleteJunction 8,
       .setTransactionUse false]).actions.length = 3 := by decide
+
+/-! ### P6 — checkpoint vertices (`ConnRef::m_checkpoint_vertices`, a separate id space with its own
+`vcreated` / `vfreed` logs).  `setRoutingCheckpoints` deletes the connector's old vertices and creates
+one per new checkpoint (it queues nothing); `~ConnRef` deletes the connector's vertices.
+
+Invariant carried between operations (`Lemmas.Lifecycle.CpOk`): `CheckpointsOwned` plus "freed ⊆
+created".  Every connector rewrite of the model (`detachAnchor`, `unpin`, `setEnd`, `reroute`) keeps
+`id` and `cps`, so only `addConn` (owns nothing), `freeConn` (frees exactly what it owns) and
+`setCheckpoints` (frees what it owns, then owns the fresh vertices; the connector ids are pairwise
+different by `Core []`, so exactly one connector is rewritten) matter. -/
+
+/-- after every documented-legal history the vertices owned by the connectors are exactly the
+    checkpoint vertices created and not freed; none is owned twice, none is freed twice -/
+theorem checkpoints_owned (h : List Op) (hl : LegalDocHist h = true) : CheckpointsOwned (run h) :=
+  cpOk_owned (cpOk_run h hl)
+
+/-- `~Router` after a strictly legal history has freed every checkpoint vertex ever created (with
+    `checkpoints_owned`: exactly once).  Strict legality matters as in P4: an inactive connector is
+    not freed by `~Router`, and its checkpoint vertices go with it. -/
+theorem checkpoints_released (h : List Op) (hl : LegalHist (h ++ [Op.deleteRouter]) = true) :
+    CheckpointsReleased (run (h ++ [.deleteRouter])) := by
+  have hcp := cpOk_run _ (legal_implies_legalDoc _ hl)
+  unfold LegalHist at hl
+  rw [legalFrom_append, Bool.and_eq_true] at hl
+  have hpre : Core [] (h.foldl step init) := core_run h (legalFrom_mono init h hl.1)
+  have := allocated_deleteRouter hpre hl.2
+  unfold run at hcp ⊢
+  rw [List.foldl_append] at hcp ⊢
+  exact checkpointsReleased_of hcp this.1 this.2
+
+/-- non-vacuity: checkpoints set before and after the connector becomes active, replaced, cleared and
+    set again; all five vertices are created once and freed once -/
+example : LegalHist [.newConn 1 none none true, .setRoutingCheckpoints 1 [10, 11], .processTransaction,
+      .setRoutingCheckpoints 1 [12], .setRoutingCheckpoints 1 [], .setRoutingCheckpoints 1 [13, 14],
+      .deleteRouter] = true ∧
+    (run [.newConn 1 none none true, .setRoutingCheckpoints 1 [10, 11], .processTransaction,
+      .setRoutingCheckpoints 1 [12], .setRoutingCheckpoints 1 [], .setRoutingCheckpoints 1 [13, 14],
+      .deleteRouter]).vcreated = [10, 11, 12, 13, 14] ∧
+    (run [.newConn 1 none none true, .setRoutingCheckpoints 1 [10, 11], .processTransaction,
+      .setRoutingCheckpoints 1 [12], .setRoutingCheckpoints 1 [], .setRoutingCheckpoints 1 [13, 14],
+      .deleteRouter]).vfreed = [10, 11, 12, 13, 14] := by decide
+
+/-- non-vacuity of `checkpoints_owned` mid-history: two connectors own disjoint vertex lists -/
+example : LegalDocHist [.newConn 1 none none true, .newConn 2 none none false,
+      .setRoutingCheckpoints 1 [10, 11], .setRoutingCheckpoints 2 [12], .setRoutingCheckpoints 1 [13]] = true ∧
+    (run [.newConn 1 none none true, .newConn 2 none none false,
+      .setRoutingCheckpoints 1 [10, 11], .setRoutingCheckpoints 2 [12], .setRoutingCheckpoints 1 [13]]).allCps
+      = [13, 12] ∧
+    (run [.newConn 1 none none true, .newConn 2 none none false,
+      .setRoutingCheckpoints 1 [10, 11], .setRoutingCheckpoints 2 [12], .setRoutingCheckpoints 1 [13]]).vfreed
+      = [10, 11] := by decide
 
 end AdaptaVerif.Props.C15
